@@ -60,6 +60,7 @@ TEnv ==
        [] Rec.k = "cclose" -> ChildClose(Rec.h, Rec.fd)
        [] Rec.k = "cclosex" -> ChildCloseX(Rec.h)
        [] Rec.k = "cread" -> ChildRead(Rec.h, Rec.n)
+       [] Rec.k = "eintr" -> Interrupt
 
 \* does the observation logged by the code agree with what the model predicts for this return?
 ObsMatches(ret, o) ==
